@@ -15,6 +15,7 @@ import (
 	"sort"
 	"strings"
 	"sync"
+	"sync/atomic"
 	"time"
 
 	"github.com/hashicorp/nodeenrollment"
@@ -95,6 +96,13 @@ var splitClients = []splitClient{
 	{Name: "base-B-then-__AUTH__", Kind: "base", Extras: []string{"B", "__AUTH__"}},
 	{Name: "base-certpref", Kind: "base", Extras: []string{nodeenrollment.CertificatePreferenceV1Prefix + "zzz", "A"}},
 	{Name: "fetch-only", Kind: "fetch", Extras: nil},
+	// fetch requests whose ClientHello lists other names in front of the request's entries
+	{Name: "fetch-after-A", Kind: "fetch-extras-first", Extras: []string{"A"}},
+	{Name: "fetch-after-unregistered-name", Kind: "fetch-extras-first", Extras: []string{"some-unregistered-name"}},
+	// a peer without node credentials: its own (unauthorized) fetch request first, then the authentication
+	// entries of an enrolled node copied from that node's ClientHello (they travel in clear), then a registered name
+	{Name: "fetch-then-replayed-auth-A", Kind: "fetch-replay", Extras: []string{"A"}},
+	{Name: "fetch-then-replayed-auth", Kind: "fetch-replay", Extras: nil},
 }
 
 type delivery struct {
@@ -104,6 +112,9 @@ type delivery struct {
 	connType string
 	negProto string
 }
+
+// splitStalledCases counts the cases in which a client met a listener that no longer answered
+var splitStalledCases atomic.Int64
 
 func runSplitCase(c *engine.Ctx, s *world.Server, node *world.Node, sc splitCase) {
 	r := c.R
@@ -220,6 +231,7 @@ func runSplitCase(c *engine.Ctx, s *world.Server, node *world.Node, sc splitCase
 		closedName = sc.CloseLookedUp
 	}
 
+	stalled := false
 	for ci, cl := range splitClients {
 		marker := fmt.Sprintf("%-16s", fmt.Sprintf("m%d-%s", ci, cl.Name))[:16]
 		var cfg *tls.Config
@@ -257,10 +269,23 @@ func runSplitCase(c *engine.Ctx, s *world.Server, node *world.Node, sc splitCase
 			}
 		case "base":
 			cfg = &tls.Config{NextProtos: cl.Extras, InsecureSkipVerify: true, MinVersion: tls.VersionTLS12}
-		case "fetch", "fetch-alert":
+		case "fetch", "fetch-alert", "fetch-replay", "fetch-extras-first":
 			n := world.MustNode(false, "")
 			req, _ := n.FetchRequest()
 			cs := world.ClientSpec{Protos: world.FetchProtos(req)}
+			if cl.Kind == "fetch-extras-first" {
+				cs.Protos = append(append([]string{}, cl.Extras...), cs.Protos...)
+			}
+			if cl.Kind == "fetch-replay" {
+				if cfgs, err := nodetls.ClientConfigs(s.Ctx, node.Creds); err == nil && len(cfgs) > 0 {
+					for _, e := range cfgs[0].NextProtos {
+						if strings.HasPrefix(e, nodeenrollment.AuthenticateNodeNextProtoV1Prefix) {
+							cs.Protos = append(cs.Protos, e)
+						}
+					}
+				}
+				cs.Protos = append(cs.Protos, cl.Extras...)
+			}
 			cfg = &tls.Config{NextProtos: cs.Protos, InsecureSkipVerify: true, MinVersion: tls.VersionTLS13}
 			k := n.K
 			now := time.Now()
@@ -276,10 +301,28 @@ func runSplitCase(c *engine.Ctx, s *world.Server, node *world.Node, sc splitCase
 			r.Broken("dial: " + err.Error())
 			continue
 		}
-		_ = raw.SetDeadline(time.Now().Add(30 * time.Second))
+		// generous for the first client that meets a listener that no longer answers, short after that:
+		// the verdicts do not depend on it, and a dead listener must not eat the watchdog's budget
+		wait := 30 * time.Second
+		switch {
+		case stalled:
+			wait = time.Second
+		case splitStalledCases.Load() >= 3:
+			wait = 3 * time.Second
+		}
+		_ = raw.SetDeadline(time.Now().Add(wait))
 		tc := tls.Client(raw, cfg)
 		acked := false
-		if err := tc.Handshake(); err == nil {
+		herr := tc.Handshake()
+		var ne net.Error
+		if errors.As(herr, &ne) && ne.Timeout() {
+			if !stalled {
+				splitStalledCases.Add(1)
+			}
+			stalled = true
+			r.Count("client_handshakes_timed_out", 1)
+		}
+		if err := herr; err == nil {
 			if _, err := tc.Write([]byte(marker)); err == nil {
 				one := make([]byte, 1)
 				if n, _ := tc.Read(one); n == 1 && one[0] == 'K' {
